@@ -275,6 +275,36 @@ def sequence_history(item):
     return out
 
 
+def reservoir_neighbours(item):
+    """Worker: for one input, the inputs that differ from it in ONE reservoir-module figure the input states itself (x 0.9; counts + 1)."""
+    from .c07 import build
+    ident, text = item
+    try:
+        m = build(text, read=False)
+        names = {p.Name.strip() for p in m.reserv.ParameterDict.values() if type(p).__name__ in ('floatParameter', 'intParameter')}
+        ints = {p.Name.strip() for p in m.reserv.ParameterDict.values() if type(p).__name__ == 'intParameter'}
+    except BaseException:  # noqa: BLE001
+        return []
+    out, seen = [], set()
+    for ln in text.splitlines():
+        parts = [x.strip() for x in ln.split(',')]
+        if len(parts) < 2 or parts[0] not in names or parts[0] in seen:
+            continue
+        try:
+            x = float(parts[1])
+        except ValueError:
+            continue
+        seen.add(parts[0])
+        if parts[0] in ints:
+            if not parts[0].startswith('Number of'):
+                continue        # an option switches the model: not a neighbour
+            new = str(int(x) + 1)
+        else:
+            new = repr(x * 0.9)
+        out.append((f'{ident}~{parts[0]}', text.rstrip('\n') + f'\n{parts[0]}, {new}\n'))
+    return out
+
+
 class InjectedFault(ArithmeticError):
     """A failure raised at a chosen point of a run (any line of any module's Calculate may fail: a numeric error, an interrupt)."""
 
@@ -483,6 +513,15 @@ def run(tier: str, only_key: dict | None = None) -> int:
             rng.shuffle(models)
             order = models[:4] + [models[0]]
         seqs.append((f'seq{k}', [(i, texts[i]) for i in order]))
+    # near-identical inputs: B differs from A in one reservoir figure; B after A in one process against B alone in a fresh one
+    # (whatever a run keeps for later runs must be keyed by everything the kept value depends on)
+    nb_bases = [i for i in ('example1|v1', 'example2|v1', 'example3|v1', 'grid-eu2-pt9|v1', 'example_multiple_gradients|v1') if i in texts]
+    for ident, lst in zip(nb_bases, sim.call_in_pool('harness.c08:reservoir_neighbours', [(i, texts[i]) for i in nb_bases])):
+        rng.shuffle(lst)
+        for nid, ntext in lst[: (6 if tier == 'quick' else len(lst))]:
+            texts[nid] = ntext
+            seqs.append((f'alone:{nid}', [(nid, ntext)]))
+            seqs.append((f'after:{nid}', [(ident, texts[ident]), (nid, ntext)]))
     seq_out = sim.call_in_pool('harness.c08:sequence_history', seqs)
     # ---- failed runs at every crash point: a failure raised at a seeded choice of lines of the modules' Calculate bodies
     pairs = [(a, b) for a, b in (('example1|v1', 'example2|v1'), ('example2|v1', 'example1|v1'), ('example1|v1', 'example3|v1'),
